@@ -1926,7 +1926,13 @@ class RequestHandler:
         if isinstance(e, Finish):
             # Not an error; just finish the request without logging.
             if not self._finished:
-                self.finish(*e.args)
+                try:
+                    self.finish(*e.args)
+                except Exception as finish_exc:
+                    # finish() itself rejected the response (for example a
+                    # body with a 204 status). Handle that like any other
+                    # exception instead of leaving the request unfinished.
+                    self._handle_request_exception(finish_exc)
             return
         try:
             self.log_exception(*sys.exc_info())
